@@ -20,22 +20,69 @@ fn real_client() -> reqwest_real::Client {
     })
 }
 
+#[derive(Clone)]
 pub struct Client {
     real: reqwest_real::Client,
+    timeout: Option<std::time::Duration>,
+}
+
+impl Default for Client {
+    fn default() -> Self {
+        Client::new()
+    }
 }
 
 impl Client {
     pub fn new() -> Client {
-        Client { real: real_client() }
+        Client { real: real_client(), timeout: None }
+    }
+
+    pub fn builder() -> ClientBuilder {
+        ClientBuilder { timeout: None }
     }
 
     pub fn get<U: reqwest_real::IntoUrl>(&self, url: U) -> SimRequestBuilder {
-        SimRequestBuilder { real: self.real.get(url) }
+        SimRequestBuilder { real: self.real.get(url), timeout: self.timeout }
+    }
+}
+
+/// The settings a tracker client is likely to touch; only the timeout matters to the simulation
+/// (a reply that takes longer is lost and the request fails when the timeout expires).
+pub struct ClientBuilder {
+    timeout: Option<std::time::Duration>,
+}
+
+impl ClientBuilder {
+    pub fn user_agent<V: AsRef<str>>(self, _value: V) -> ClientBuilder {
+        self
+    }
+    pub fn timeout(mut self, timeout: std::time::Duration) -> ClientBuilder {
+        self.timeout = Some(timeout);
+        self
+    }
+    pub fn connect_timeout(self, _timeout: std::time::Duration) -> ClientBuilder {
+        self
+    }
+    pub fn pool_idle_timeout<D: Into<Option<std::time::Duration>>>(self, _val: D) -> ClientBuilder {
+        self
+    }
+    pub fn default_headers(self, _headers: reqwest_real::header::HeaderMap) -> ClientBuilder {
+        self
+    }
+    pub fn tcp_nodelay(self, _enabled: bool) -> ClientBuilder {
+        self
+    }
+    pub fn no_proxy(self) -> ClientBuilder {
+        self
+    }
+    pub fn build(self) -> std::result::Result<Client, reqwest_real::Error> {
+        Ok(Client { real: real_client(), timeout: self.timeout })
     }
 }
 
 pub struct SimRequestBuilder {
     real: reqwest_real::RequestBuilder,
+    timeout: Option<std::time::Duration>,
 }
 
 fn transport_error() -> reqwest_real::Error {
@@ -45,13 +92,36 @@ fn transport_error() -> reqwest_real::Error {
 
 impl SimRequestBuilder {
     pub fn query<T: serde::Serialize + ?Sized>(self, query: &T) -> SimRequestBuilder {
-        SimRequestBuilder { real: self.real.query(query) }
+        SimRequestBuilder { real: self.real.query(query), timeout: self.timeout }
+    }
+
+    pub fn header<K, V>(self, key: K, value: V) -> SimRequestBuilder
+    where
+        reqwest_real::header::HeaderName: TryFrom<K>,
+        <reqwest_real::header::HeaderName as TryFrom<K>>::Error: Into<http::Error>,
+        reqwest_real::header::HeaderValue: TryFrom<V>,
+        <reqwest_real::header::HeaderValue as TryFrom<V>>::Error: Into<http::Error>,
+    {
+        SimRequestBuilder { real: self.real.header(key, value), timeout: self.timeout }
+    }
+
+    pub fn timeout(self, timeout: std::time::Duration) -> SimRequestBuilder {
+        SimRequestBuilder { real: self.real, timeout: Some(timeout) }
     }
 
     pub async fn send(self) -> std::result::Result<reqwest_real::Response, reqwest_real::Error> {
         let req = self.real.build()?;
         let url = req.url().as_str().to_string();
         let (n, lat, outcome) = world::with(|w| w.tracker.announce(&url));
+        if let Some(t) = self.timeout {
+            if std::time::Duration::from_millis(lat) > t {
+                tokio_real::time::sleep(t).await;
+                let label = world::with(|w| w.tracker.label(n));
+                world::log(world::Ev::TrackerReply { n, kind: format!("{} (lost: client timeout)", label) });
+                world::bump("tracker_client_timeout");
+                return Err(transport_error());
+            }
+        }
         if lat > 0 {
             tokio_real::time::sleep(std::time::Duration::from_millis(lat)).await;
         }
